@@ -13,6 +13,7 @@ import random
 
 from sim import boot, catalog, glob, norm as N, spec as SP, world
 from sim.kernel import Outcome, Violation, HarnessError, KnownFindings, sha
+from sim.props import base
 
 ID = 'C08'
 pt = None
@@ -940,7 +941,12 @@ class _Run:
             if h in exempt_handles:
                 continue
             # 'was this very object changed': an emptied container turning into None (or back) counts
-            d = N.same_strict(s, N.norm(self.pool[h]), '')
+            now = N.norm(self.pool[h])
+            d = N.same_strict(s, now, '')
+            if d is None and _order_sig(s) != _order_sig(now):
+                # same content, but the iteration order of a dictionary / of the residue-mod table / of the interval
+                # list of the caller's object is not what it was: a client iterating it sees the difference
+                d = f".order: {_order_sig(s)!r} != {_order_sig(now)!r}"[:300]
             if d is not None:
                 kind = self.plan['pool'][h]['kind']
                 if kind == 'nf':
@@ -956,8 +962,30 @@ class _Run:
         return ''.join(c for c in h if not c.isdigit())
 
 
+def _order_sig(nf, acc=None):
+    """the stored order of every dictionary's keys, of the residue-mod table and of the interval list in a dump"""
+    top = acc is None
+    acc = [] if top else acc
+    if isinstance(nf, list):
+        if len(nf) == 2 and nf[0] == 'dict' and isinstance(nf[1], list):
+            acc.append(tuple(json.dumps(kv[0], default=repr) for kv in nf[1] if isinstance(kv, list) and kv))
+            for kv in nf[1]:
+                if isinstance(kv, list) and len(kv) > 1:
+                    _order_sig(kv[1], acc)
+        elif len(nf) == 2 and nf[0] == 'ann' and isinstance(nf[1], dict):
+            f = nf[1]
+            acc.append(tuple(json.dumps(kv[0]) for kv in (f.get('internal') or [])))
+            acc.append(tuple(json.dumps(iv[:2], default=repr) for iv in (f.get('intervals') or [])
+                             if isinstance(iv, list)))
+        else:
+            for x in nf:
+                _order_sig(x, acc)
+    return tuple(acc) if top else None
+
+
 def execute(plan):
     setup()
+    base.check_poison_consistent(plan)
     run = _Run(plan)
     out = run.out
     hdr = plan['header']
@@ -1711,7 +1739,9 @@ ASSUMPTIONS = [
     "field accessors (properties, has_*, get_internal_mods_by_index) and Fragment.parent_sequence are references into "
     "the object by design and are not treated as 'results' for the aliasing clause",
     "an empty modification list and None are the same observable state of an annotation field",
-    "dict key order is not observable state",
+    "dict key order of RESULTS is not compared (a fresh twin may store the same content in another order); for the "
+    "caller's own objects the stored order of dictionaries, of the residue-mod table and of the interval list is part "
+    "of 'unchanged'",
     "functions named add_*/pop_* are explicit editors of their sequence argument (exempt from ARG on that argument only)",
     "the search samples histories; a clean batch is evidence, not proof",
 ]
